@@ -10,7 +10,9 @@ RULE = ("scripted mixes on the real MessagesQueue<u64> (through the cfg window):
         "defect D2); the extracted model is explored over ALL interleavings consistent with the observed release order and "
         "completions and the implementation's outcome (per-call results, who stays blocked, queue content) must be one of the "
         "model's outcomes; the oracle checks exactly-once / order / no request queued while a receiver is blocked; non-trivial = "
-        "at least one blocking call and one push; distinct = distinct lines")
+        "at least one blocking call and one push; distinct = distinct lines; at the server API (`rv`): bursts on 1..4 (and 140) "
+        "connections against mixes of recv / recv_timeout / try_recv / partly consumed iterators, also after an earlier burst of "
+        "8 connections and the pool's 5 s idle period (surplus workers retired)")
 ASSUMPTIONS = ["an awake thread is eventually scheduled (the settle phase waits until nothing changes for 120 ms)",
                "the grace period only orders releases; it never asserts that a call IS blocked"]
 oracle = mqbase.oracle_c07
